@@ -115,6 +115,28 @@ def run(ck: Check):
         m = r.randint(0, min(n, 12))
         go(r.choice(["line", "symbol"]) if n > 200 else r.choice(["line", "char", "symbol"]),
            n if n <= 200 else n, tuple(sorted(r.sample(range(n), m))), "random")
+    # the same strategy / Lithium objects for a small file and then a large one (nothing learnt from the first
+    # input may slow down the second): exact core and the count bound for every run of the session
+    from runner import impl_session
+    for sizes in ((8, 1024), (3, 300, 2000), (16, 16, 512)) if quick else ((8, 1024), (3, 300, 2000), (16, 16, 512), (1, 4096), (100, 5000)):
+        steps, info = [], []
+        for n in sizes:
+            parts = [b"<%d>\n" % i for i in range(n)]
+            m = min(n, 3)
+            core_idx = tuple(sorted(r.sample(range(n), m)))
+            f, _ = make_oracle(core_idx, parts)
+            steps.append({"strategy": "minimize", "cfg": {}, "atom": "line", "file0": b"".join(parts),
+                          "verdict": lambda k, data, f=f: "Y" if f(data) else "N", "cap": bound(n, m) + 50})
+            info.append((n, m, core_idx, parts))
+        for (n, m, core_idx, parts), run_ in zip(info, impl_session(steps)):
+            ck.count("session")
+            ck.nontrivial(("session", sizes, n))
+            want = b"".join(parts[i] for i in core_idx)
+            if run_.exc is not None or run_.final != want or run_.tests > bound(n, m):
+                ck.violation(f"same minimize object for files of {sizes} atoms: the run on n={n} (core {core_idx}) ended "
+                             f"with exc={run_.exc}, {run_.tests} tests (bound {bound(n, m)}), final == core: {run_.final == want}",
+                             {"session_sizes": list(sizes), "n": n, "core": list(core_idx), "tests": run_.tests,
+                              "bound": bound(n, m)})
     ex.diff()
     return ck.finish(level="proof", rule=RULE, assumptions=[
         "the test-count bound is a Coq theorem only in the form stated in Props/C10.v; see level note"])
